@@ -47,9 +47,18 @@ def build(scratch):
         body = ex.match_arm_block(VM, pat)
         methods.append(f"/// D6: body of the `OpCode::{opn}` arm of VmCore::vm, wrapped into a method" + (" (the arm binds `payload_size`)" if binds else "")
                        + f"\n    fn {fname}(&mut self" + (", payload_size: u24" if binds else "") + ") -> Result<()> {\n        " + body + "\n        Ok(())\n    }")
+    for opn in ["MOVEREADLOCAL0", "MOVEREADLOCAL1", "MOVEREADLOCAL2", "MOVEREADLOCAL3", "TRUE", "FALSE", "LOADINT0", "LOADINT1", "LOADINT2", "VOID"]:
+        body = ex.match_arm_block(VM, r"op_code: OpCode::" + opn + r",\s*\.\.\s*\}")
+        methods.append(f"/// D6: body of the `OpCode::{opn}` arm of VmCore::vm, wrapped into a method\n    fn arm_{opn.lower()}(&mut self) -> Result<()> {{\n        " + body + "\n        Ok(())\n    }")
+    for opn in ["LTEIMMEDIATE", "LTEIMMEDIATEIF"]:
+        body = ex.match_arm_block(VM, r"op_code: OpCode::" + opn + r",\s*\.\.\s*\}")
+        methods.append(f"/// D6: body of the `OpCode::{opn}` arm of VmCore::vm, wrapped into a method\n    fn arm_{opn.lower()}(&mut self) -> Result<()> {{\n        " + body + "\n        Ok(())\n    }")
     arm = ex.match_arm_block(VM, r"op_code: OpCode::SUBIMMEDIATE,\s*\.\.\s*\}")
     methods.append("/// D6: body of the `OpCode::SUBIMMEDIATE` arm of VmCore::vm, wrapped into a method\n    fn arm_subimmediate(&mut self) -> Result<()> " + "{\n        " + arm + "\n        Ok(())\n    }")
-    free_fns = [ex.fn(VM, "let_end_scope_handler"), ex.fn(VM, "let_end_scope_handler_with_payload"),
+    RV = "crates/steel-core/src/rvals.rs"
+    free_fns = [ex.fn(VM, "local_handler0"), ex.fn(VM, "local_handler1"), ex.fn(VM, "local_handler2"), ex.fn(VM, "local_handler3"),
+                "impl SteelVal {\n    " + ex.item(RV, "const", "INT_ZERO") + "\n    " + ex.item(RV, "const", "INT_ONE") + "\n    " + ex.item(RV, "const", "INT_TWO") + "\n}",
+                ex.fn(VM, "let_end_scope_handler"), ex.fn(VM, "let_end_scope_handler_with_payload"),
                 "impl SteelVal {\n    " + ex.fn("crates/steel-core/src/rvals.rs", "is_truthy") + "\n}"]
     ins = ["#[derive(Copy, Clone, Debug, PartialEq, Eq, Hash)] // real: + Serialize, Deserialize\n" + ex.item(INSTR, "struct", "DenseInstruction"),
            "#[derive(Copy, Clone, PartialEq, PartialOrd, Eq, Ord, Hash, Debug)]\n#[allow(non_camel_case_types)]\n#[repr(transparent)]\n" + ex.item(INSTR, "struct", "u24"),
@@ -88,7 +97,7 @@ unexpected_cfgs = {{ level = "allow", check-cfg = ['cfg(kani)'] }}
           "pub mod x_instructions;\npub mod x_vm;\n")
     meta = {"unit": NAME, "engine": "E2: verbatim item extraction into a mini crate + Kani", "items": ex.items,
             "prelude": "units/vm/prelude.rs", "prelude_sha256": sha256(prelude), "harness_sha256": sha256(harness),
-            "extractor_edits": "D1; D2 (feature jit2 on; cut_sequence is empty without feature `dynamic`); D3 (methods of the several `impl VmCore` blocks gathered into one impl); D6 (SUBIMMEDIATE, TCOJMP, IF, JMP, POPSINGLE match-arm bodies wrapped into methods returning Result<()>)",
+            "extractor_edits": "D1; D2 (feature jit2 on; cut_sequence is empty without feature `dynamic`); D3 (methods of the several `impl VmCore` blocks gathered into one impl); D6 (SUBIMMEDIATE, LTEIMMEDIATE, LTEIMMEDIATEIF, TCOJMP, IF, JMP, POPSINGLE, MOVEREADLOCAL0-3, TRUE, FALSE, LOADINT0-2, VOID match-arm bodies wrapped into methods returning Result<()>)",
             "assumption_scan": scan_assumptions(harness, "units/vm/harness.rs") + scan_assumptions(prelude, "units/vm/prelude.rs")}
     return crate, meta
 
@@ -127,8 +136,14 @@ OBS = {
         contract="IF pops exactly the test value, continues at ip+1 when it is anything but #f and at the payload otherwise; JMP continues at the payload and touches no value; POPSINGLE discards exactly the top value; everything below is untouched - together with cgen's layout [test][IF else][then][JMP end][else] this is the reference semantics of `if`"),
     "let_end_scope_contract": dict(props=["C01"], kind="bounded", bound="operand stack of 5 symbolic values, frame offset 0-2, let with 0-2 variables", functions=["let_end_scope_handler", "let_end_scope_handler_with_payload", "VmCore::get_offset"],
         contract="LETENDSCOPE k removes exactly the let's variables (the slots from frame offset + k up to, not including, the top) and keeps the body's value on top; everything below the let is untouched; ip advances by one"),
+    "local_fast_path_arms_contract": dict(props=["C01"], kind="bounded", bound="operand stack of 5 symbolic values, frame offset 0-1", functions=["local_handler0..3", "VmCore::vm (MOVEREADLOCAL0..3 arms)", "VmCore::handle_local", "VmCore::move_from_stack"],
+        contract="the specialised forms agree with the general ones: READLOCALn pushes a copy of local n (stack[offset+n]) and changes nothing else; MOVEREADLOCALn pushes local n and leaves #<void> in exactly that slot; ip+1"),
+    "constant_arms_contract": dict(props=["C01"], kind="proof", functions=["VmCore::vm (TRUE, FALSE, LOADINT0, LOADINT1, LOADINT2, VOID arms)", "SteelVal::INT_ZERO/INT_ONE/INT_TWO"],
+        contract="TRUE / FALSE / LOADINT0 / LOADINT1 / LOADINT2 / VOID push exactly #t / #f / 0 / 1 / 2 / #<void>, touch nothing below, ip+1"),
     "u24_roundtrip_contract": dict(props=["C01"], kind="proof", functions=["u24::from_u32", "u24::to_u32", "u24::from_usize", "u24::to_usize", "u24::add", "DenseInstruction::new"],
                                    contract="for every n < 2^24: to(from(n)) == n (operands, jump targets and arities survive encoding); a + b exact below 2^24"),
+    "lteimmediate_arms_contract": dict(props=["C10", "C01"], kind="proof", functions=["VmCore::vm (OpCode::LTEIMMEDIATE arm)", "VmCore::vm (OpCode::LTEIMMEDIATEIF arm)"],
+        contract="(<= local k) on a fixnum local and every 24-bit k: LTEIMMEDIATE pushes exactly the boolean l <= k and continues at ip+2; the fused LTEIMMEDIATEIF pushes nothing and continues at ip+3 when l <= k and at the else-target stored in the instruction at ip+2 otherwise; a non-number local is a TypeMismatch; nothing below is touched (ordering of values = the contract of PartialOrd proved in unit num)"),
     "subimmediate_arm_contract": dict(props=["C10", "C01"], kind="proof", functions=["VmCore::vm (OpCode::SUBIMMEDIATE arm)"],
                                       contract="(- local k) on a fixnum local and every 24-bit k: exact l-k, fixnum if it fits else the exact bignum; flonum local: IEEE l - k; non-number: TypeMismatch; pushes exactly one value, ip+2"),
 }
